@@ -182,6 +182,7 @@ def cases(tier, seed):
     for w in (1 / 3, 0.5):
         out.append({"name": f"numba:cart2:laplace:corner_weight={w:.3g}:isotropic", "scenario": "scenario_ninepoint", "cfg": {"w": w, "periodic": (False, False)}})
     out.append({"name": "numba:cart2:laplace:corner_weight=0.333:isotropic:periodic-x", "scenario": "scenario_ninepoint", "cfg": {"w": 1 / 3, "periodic": (True, False)}})
+    out.append({"name": "numba:cart2:laplace:corner_weight=0.333:isotropic:periodic-y", "scenario": "scenario_ninepoint", "cfg": {"w": 1 / 3, "periodic": (False, True)}})
     for gname, spec in grids[:3] + grids[3:9:2]:
         out.append({"name": f"numba:{gname}:complex-linearity", "scenario": "scenario_complex", "cfg": {"grid": dict(spec, geometry="dyadic")}})
     return out
@@ -350,7 +351,7 @@ def scenario_ninepoint(env, cfg):
     # the 9-point kernel fills the corner ghost cells itself; for a periodic axis it copies from the
     # opposite side, so only fields that are periodic along that axis are admissible there
     for e in X.monomials(2, 3):
-        if cfg["periodic"][0] and e[0] > 0:
+        if (cfg["periodic"][0] and e[0] > 0) or (cfg["periodic"][1] and e[1] > 0):
             continue
         p = P.mono(2, e)
         arr = X.as_dtype(X.sample_field(p, 0, pos, shape, 1), env.sym)
@@ -358,7 +359,7 @@ def scenario_ninepoint(env, cfg):
         operator(arr, out)
         exact = X.eval_field(p.d(0).d(0) + p.d(1).d(1), 0, pos, shape, 1)
         # corner ghost cells are interpolated by the kernel: exact only for the interior cell (1,1)
-        cells = [(1, 1)] if not any(cfg["periodic"]) else [(i, 1) for i in range(3)]
+        cells = [(1, 1)] if not any(cfg["periodic"]) else ([(i, 1) for i in range(3)] if cfg["periodic"][0] else [(1, j) for j in range(3)])
         env.prove(f"9-point:consistent:x^{e[0]}y^{e[1]}", O.land(*[abs(out[c] - exact[c]) <= C_ERR * 2 * h * h + 1e-9 for c in cells]))
     env.reach(hints=[{"h": 0.25, "x0": 0, "y0": 0}])
 
